@@ -93,7 +93,7 @@ K_UNHOOK = "c16.unhook_then_jac_calls_none"
 K_BASEORDER = "c16.set_jac_base_order_flat_wrapper"
 
 # J: jac(t_k, y_k), H: hook_jacobian_call(fn_k), U: unhook_jacobian_call(), A: rhs.jac = fn_k, B / C: set_jac_base_order(4 / 2)
-HIST_OPS = ["J", "H", "U", "A", "B", "K"]      # K: the wrapper is replaced by copy.copy(wrapper) (what OdeSystem(...) does with it)
+HIST_OPS = ["J", "H", "U", "A", "B", "K", "F"]   # F: a request during which the rhs raises (finite-difference mode), caught by the caller      # K: the wrapper is replaced by copy.copy(wrapper) (what OdeSystem(...) does with it)
 
 
 # --------------------------------------------------------------------------------------------------------------------
@@ -473,6 +473,10 @@ class _UserRhs:
     def __call__(self, t, y, **kw):
         c, n = self._c, self._n
         yf = flat(c, y)
+        if getattr(self, "fault_in", 0) > 0:
+            self.fault_in -= 1
+            if self.fault_in == 0:
+                raise RhsFault("the right-hand side raised during a finite-difference evaluation")
         self.calls.append((t, yf))
         out = []
         for i in range(n):
@@ -481,6 +485,10 @@ class _UserRhs:
                 v = v + (self._A0[i][k] + t * self._A1[i][k]) * yf[k]
             out.append(v)
         return c.array(out).reshape((n,))
+
+
+class RhsFault(Exception):
+    pass
 
 
 class _UserJac:
@@ -588,6 +596,21 @@ def _scen_hist(c, inst):
             continue
         # ---- a Jacobian request at a fresh symbolic time (and state)
         t = c.real("t%d" % k)
+        if op == "F" and (hooked if hooked is not None else attr_jac) is None:
+            # the user's rhs raises at its first evaluation made for this request: the exception reaches the caller, nothing is counted,
+            # and later requests are unaffected (whatever the wrapper cached for the failed time)
+            yF = c.array([c.real("y%d_%d" % (k, q)) for q in range(n)] if n == 1 else ([0] * n if c.symbolic else [0.0] * n)).reshape((n,))
+            user.fault_in = 1
+            st, J = run(rhs.jac, t, yF)
+            user.fault_in = 0
+            c.check(P + "rhs_exception_during_request_propagates", st == "exc" and isinstance(J, RhsFault), info=dict(history="".join(ops), pos=k, got=repr(J)[:100]))
+            c.check(P + "njev_counts_requests", rhs.njev == answered, info=dict(history="".join(ops), pos=k, njev=repr(rhs.njev), answered=answered))
+            requests_made += 1
+            unhook_pending = False
+            base_order_pending = False
+            fd_mode = True
+            fd_time = t
+            continue
         if n == 1:
             y0 = [c.real("y%d_%d" % (k, q)) for q in range(n)]
         else:
